@@ -169,8 +169,13 @@ def fmtYear (y : Int) : List Nat :=
   let ds := if a < 10000 then pad4 a else (Nat.toDigits 10 a).map Char.toNat
   if y < 0 then 45 :: ds else ds
 
-/-- the nine fraction digits, most significant first -/
-def nanoDigits (ns : Nat) : List Nat := (List.range 9).map fun i => ns / 10 ^ (8 - i) % 10
+/-- the `k` low decimal digits of `n`, most significant first (`n < 10^k`) -/
+def digs : Nat → Nat → List Nat
+  | 0, _ => []
+  | k + 1, n => n / 10 ^ k :: digs k (n % 10 ^ k)
+
+/-- the nine fraction digits -/
+def nanoDigits (ns : Nat) : List Nat := digs 9 ns
 
 /-- what follows the seconds: the fraction digits up to the last non-zero one, then "+00:00".
 (`.999999999` drops trailing zeros, and the point itself when nothing is left.) -/
